@@ -215,7 +215,7 @@ pub fn check() -> Check {
         rule: "membership built through apply_many/RemoveDown only (n active incl. Suspect, d Down records, extras added and removed, probe rounds interleaved so the cursor is arbitrary), then 8n+8 probe rounds with every Ping acknowledged; every window of 2n-1 consecutive rounds must contain every active member; all (n,d) with n+d<=6 systematically, n up to 12 (quick) / 40 (thorough) sampled, fresh RNG seed per case. Non-trivial: n>=2; distinct by (member order, cursor) layout at the start of the stable phase (from the hook snapshot).",
         assumptions: &["the Ack sent by the harness carries the target's recorded incarnation, so no update is applied during the stable phase (asserted)"],
         required: &["probe_rounds_checked", "windows_checked"],
-        workloads: vec![Workload { name: "rr", f: rr_case, quick: 12_000, thorough: 400_000, flav: Flav::Checked }],
+        workloads: vec![Workload { name: "rr", f: rr_case, quick: 48_000, thorough: 400_000, flav: Flav::Checked }],
         exhaustive: false,
         aggregate: None,
     }
